@@ -1,7 +1,7 @@
 SPECIFICATION GSpec
 CONSTANTS FMods = {"absent", "", "static", "private"}
   IMods = {"", "private"}
-  Calls = {"co_f", "drv_f", "efun_f"}
+  Calls = {"co_f", "coa_f", "drv_f", "efun_f"}
   HistLen = 2
   Sim = FALSE
 INVARIANT Emit
